@@ -42,6 +42,8 @@ def build_tree(rng, with_all):
         d = samples.dirty_pyc()
         add("t/all/mtime0-dirty-payload.pyc", d[:8] + b"\0\0\0\0" + d[12:])
         add("t/all/mtime-set-clean-payload.pyc", d[:16] + b"N")
+        # the usual layout: the byte-compiled file below __pycache__, no source beside it
+        add("t/all/pkg/__pycache__/mod.cpython-312.pyc", d)
     return t, files
 
 
@@ -115,7 +117,8 @@ def run(ctx):
     n = 0
     samples_out = []
     configs = [(MODELLED, False, []), (MODELLED, False, ["-j2"]), (None, True, []), (None, True, ["-j4"]), (["gzip"], False, []), (["-gzip"], True, []),
-               (["pyc", "pyc-zero-mtime"], True, []), (["pyc", "pyc-zero-mtime"], True, ["-j2"]), (["pyc", "pyc-zero-mtime"], True, ["-j5"]), (MODELLED, False, ["--check"])]
+               (["pyc", "pyc-zero-mtime"], True, []), (["pyc", "pyc-zero-mtime"], True, ["-j2"]), (["pyc", "pyc-zero-mtime"], True, ["-j5"]), (MODELLED, False, ["--check"]),
+               (["pyc-zero-mtime"], True, []), (["pyc-zero-mtime"], True, ["-j2"])]
     reference = {}
     for hsel, with_all, mode in configs:
         t, files = build_tree(rng, with_all)
